@@ -4,7 +4,7 @@ P="$1"; ID="$2"; shift 2
 cd /repo || exit 9
 if ! git diff --quiet; then echo "REPO DIRTY - refusing"; exit 9; fi
 git apply "$P" || { echo "PATCH DOES NOT APPLY"; exit 8; }
-cd /verif && ./check "$ID" "$@" > /tmp/try_seed.out 2>&1; rc=$?
+cd /verif && timeout 900 ./check "$ID" "$@" > /tmp/try_seed.out 2>&1; rc=$?
 git -C /repo checkout -- .
 grep -E "^(VIOLATION|KNOWN|HARNESS|INCONCLUSIVE|\[C)" /tmp/try_seed.out | cut -c1-300 | head -8
 echo "exit=$rc"
